@@ -541,3 +541,116 @@ def loops_exhaust(ctx, rule, inst, body, what):
                   'the loop of %s is left only when its iterator is exhausted' % what,
                   'a loop of %s can be left before its iterator is exhausted (break / early return in the loop body): the traversal is incomplete' % what)
     return n
+
+
+# ---------------------------------------------------------------------------------------------------------------
+# keys of the keyed stores: equality must be structural
+MAP_TYPES = ('HashMap<', 'DashMap<', 'HashSet<', 'BTreeMap<', 'BTreeSet<', 'IndexMap<')
+
+
+def first_generic_arg(ty, opener):
+    """the first generic argument of the first occurrence of `opener` (e.g. 'HashMap<') in the type string `ty`"""
+    i = ty.find(opener)
+    if i < 0:
+        return None
+    i += len(opener)
+    depth, j = 0, i
+    while j < len(ty):
+        ch = ty[j]
+        if ch in '<([':
+            depth += 1
+        elif ch in '>)]':
+            if depth == 0:
+                break
+            depth -= 1
+        elif ch == ',' and depth == 0:
+            break
+        j += 1
+    return ty[i:j].strip()
+
+
+def _adts_in(F, ty):
+    import re
+    return [n for n in F.adts if re.search(r'(?<![\w:])' + re.escape(n) + r'(?![\w])', ty)]
+
+
+def r_key_equality(ctx):
+    """R*.key — every keyed store of the library (a field whose type is a hash / ordered map or set, possibly inside a Vec) identifies
+    its entries by the WHOLE key: a crate-local type that occurs in the key type derives PartialEq (field-wise conjunction), or its
+    hand-written `eq` asserts the equality of every field on every path that answers true (an `Arc::ptr_eq` counts for the field it
+    compares). A short-cut that answers true on the state alone makes the dedup index of the fringe (C11), the cache (C18) or the
+    layer maps of the diagrams identify two different sub-problems with each other."""
+    F = ctx.F
+    RULE = (('fringe::', 'R11.d'), ('cache::', 'R18.e'), ('dominance::', 'R10.5'), ('mdd::', 'R06.5'))
+    n_fields = 0
+    for (an, info) in sorted(F.adts.items()):
+        rule = next((r for (m, r) in RULE if m in an), None)
+        if rule is None:
+            continue
+        for v in info.get('variants', []):
+            for fl in v['fields']:
+                op = next((o for o in MAP_TYPES if o in fl[1]), None)
+                if op is None:
+                    continue
+                n_fields += 1
+                kty = first_generic_arg(fl[1], op) or ''
+                inst0 = 'key-equality/%s.%s' % (an.split('::')[-1], fl[0])
+                locals_ = _adts_in(F, kty)
+                if not locals_:
+                    ctx.ok(rule, inst0, None, '-', 'the key type `%s` is made of std types and the user\'s own state / key type (compared with their Eq)' % kty[:100])
+                    continue
+                for kn in locals_:
+                    kinfo = F.adts[kn]
+                    imp = [im for im in F.impls if (im.get('trait') or '').endswith('cmp::PartialEq') and im.get('self_adt') == kn]
+                    if not imp:
+                        continue            # cannot be a key at all (rustc rejects it)
+                    if all(im.get('auto_derived') for im in imp):
+                        ctx.ok(rule, inst0 + '/' + kn.split('::')[-1], None, '-', '`%s` derives PartialEq: two keys are equal iff all their fields are' % kn.split('::')[-1])
+                        continue
+                    eqb = [b for b in F.bodies.values() if b.fn_name == 'eq' and b.kind != 'closure' and b.impl_self_adt == kn and (b.impl_trait or '').endswith('PartialEq')]
+                    if len(eqb) != 1:
+                        ctx.bad(rule, inst0 + '/' + kn.split('::')[-1], None, '-', 'hand-written PartialEq of the key type `%s` not found as one body' % kn)
+                        continue
+                    eb = eqb[0]
+                    ctx.analysed_bodies.add(eb.name)
+                    fields = [f_[0] for f_ in kinfo['variants'][0]['fields']] if kinfo.get('variants') else []
+                    def side(t, which):
+                        # field `f` of parameter #which (self = 0, other = 1), through reference plumbing
+                        while isinstance(t, tuple) and t and t[0] in ('ref', 'deref') and len(t) > 1 and isinstance(t[1], tuple):
+                            t = t[1]
+                        if isinstance(t, tuple) and t and t[0] == 'field' and M.is_param(t[1], index=which):
+                            return t[2]
+                        if isinstance(t, tuple) and t and t[0] == 'call' and t[1].split('::')[-1] in ('deref', 'as_ref', 'borrow', 'clone') and t[2]:
+                            return side(t[2][0], which)
+                        return None
+                    def covered(atoms):
+                        got = set()
+                        for a in atoms:
+                            if a[0] == 'cmp' and a[3] == frozenset('='):
+                                for (x, y) in ((a[1], a[2]), (a[2], a[1])):
+                                    if side(x, 0) is not None and side(x, 0) == side(y, 1):
+                                        got.add(side(x, 0))
+                            if a[0] == 'T' and isinstance(a[1], tuple) and a[1] and a[1][0] == 'call' and a[1][1].split('::')[-1] in ('eq', 'ptr_eq') and len(a[1][2]) == 2:
+                                (x, y) = a[1][2]
+                                for (x, y) in ((x, y), (y, x)):
+                                    if side(x, 0) is not None and side(x, 0) == side(y, 1):
+                                        got.add(side(x, 0))
+                            if a[0] == 'F' and isinstance(a[1], tuple) and a[1] and a[1][0] == 'call' and a[1][1].split('::')[-1] == 'ne' and len(a[1][2]) == 2:
+                                (x, y) = a[1][2]
+                                for (x, y) in ((x, y), (y, x)):
+                                    if side(x, 0) is not None and side(x, 0) == side(y, 1):
+                                        got.add(side(x, 0))
+                        return got
+                    missing = set()
+                    def holds(atoms):
+                        g = covered(atoms)
+                        miss = [f_ for f_ in fields if f_ not in g]
+                        missing.update(miss)
+                        return not miss
+                    good = returns_value_only_if(eb, True, holds)
+                    ctx.check(good, rule, inst0 + '/' + kn.split('::')[-1] + '/eq-compares-every-field', eb, eb.loc(0),
+                              'the hand-written `eq` of the key type `%s` answers true only when every field (%s) is equal' % (kn.split('::')[-1], ', '.join(fields)),
+                              'the hand-written `eq` of the key type `%s` of %s.%s can answer true without comparing field(s) %s: two different entries (e.g. the same state at two depths) are identified with each other' % (
+                                  kn.split('::')[-1], an.split('::')[-1], fl[0], ', '.join(sorted(missing)) or '?'))
+    ctx.check(n_fields >= 5, 'R11.d', 'key-equality/keyed-stores-found', None, '-', '%d keyed stores (map / set fields) inspected' % n_fields,
+              'anchor missing: expected at least 5 keyed stores (NoDupFringe.states, Mdd.next_l, Pooled.pool, SimpleCache.thresholds_by_layer, SimpleDominanceChecker.data), found %d' % n_fields)
